@@ -7,7 +7,7 @@ errors is additionally checked structurally by the worker (span = extent of the 
 parents, siblings ordered, lines = lines of the offsets)."""
 import random
 
-from . import core, syntax, progs, lexgen, inputs
+from . import core, syntax, progs, lexgen, inputs, posbuild
 
 
 def run(tier):
@@ -59,9 +59,12 @@ def run(tier):
         if r.get("changed") == "tree-of-an-earlier-parse-changed" and r.get("part") == "positions":
             check.violation({"class": "positions-of-an-earlier-tree-changed", "kind": None, "family": t["ver"][0]},
                             {"task": {"src": t["src"], "ver": t["ver"], "others": len(t["others"])}, "observed": r})
+    # the span combinators themselves: Position.tla's case analysis (every combinator x argument shape) on the real Builder
+    for sig, rep in posbuild.run(check, wp, tier):
+        check.violation(sig, rep)
     check.cov["error_free_trees_checked"] = ntrees
     check.cov["traces_validated_against_impl"] = check.cov["evaluations"]
-    check.assumptions += ["span rule with the four documented conventions (vf/syntax.py _span, analyze.go checkSpans)",
+    check.assumptions += ["Position.tla: the combinators are read off their names (first argument's start .. last argument's end)", "span rule with the four documented conventions (vf/syntax.py _span, analyze.go checkSpans)",
                           "the -1 convention is also applied to the empty catch list of a catch-less try (not a valid program)"]
     return check.finish({"rule": "SyntaxGen derivations x 3 layouts x 2 versions per family (expected spans); structural span check on "
                                  "corpus, Lexer.tla cases and their CRLF/CR renderings"})
